@@ -19,9 +19,9 @@ Section Ext.
   Lemma takes_ext me w : takes ps1 me w = takes ps2 me w.
   Proof. unfold takes. destruct w; [rewrite H|]; reflexivity. Qed.
   Lemma server_next_ext ag o r : server_next ag ps1 o r = server_next ag ps2 o r.
-  Proof. destruct r as [| | | | |l| | | |]; cbn; try reflexivity. destruct l; try reflexivity. rewrite grace_ext. reflexivity. Qed.
+  Proof. destruct r as [| | | | |l| | | | | |]; cbn; try reflexivity. destruct l; try reflexivity. rewrite grace_ext. reflexivity. Qed.
   Lemma client_next_ext ag o r : client_next ag ps1 o r = client_next ag ps2 o r.
-  Proof. destruct r as [| | | | |l| | | |]; cbn; try reflexivity. destruct l; try reflexivity. rewrite grace_ext. reflexivity. Qed.
+  Proof. destruct r as [| | | | |l| | | | | |]; cbn; try reflexivity. destruct l; try reflexivity. rewrite grace_ext. reflexivity. Qed.
   Lemma ret_ext ag o q g r : ret ag ps1 o q g r = ret ag ps2 o q g r.
   Proof. unfold ret. destruct (p_drv q); try reflexivity; [rewrite server_next_ext|rewrite client_next_ext]; reflexivity. Qed.
 End Ext.
@@ -198,7 +198,7 @@ Definition run_unfixed (ag : bool) (s : state) (es : list event) : state := fold
 
 Definition wedge_pc (k : pc) : bool :=
   match k with
-  | AcqCreate | RdMeta | RdLock | LockExists | Live _ | Ping _ | StExists _ | StReread _ | CoExists | CoMetaExists | Done => true
+  | AcqCreate | RdMeta | RdLock | LockExists | Live _ | Ping _ | LiveM _ | LockExistsM _ | StExists _ | StReread _ | CoExists | CoMetaExists | Done => true
   | _ => false
   end.
 Record wlocal (q : proc) : Prop := mkW {
@@ -263,64 +263,45 @@ Proof.
   intros x Hx. unfold is_holder. rewrite (W_guard _ (C x Hx)). apply andb_false_r.
 Qed.
 
-(* ------------------------------------------------------------------ the client-side wedge: meta.json of a gone authority, no lock *)
-Definition cw_pc (k : pc) : bool :=
-  match k with RdMeta | Ping _ | Live _ | StExists _ | Done => true | _ => false end.
-Record clocal (q : proc) : Prop := mkC {
-  C_pc : cw_pc (p_pc q) = true;
-  C_drv : p_drv q = DClient
-}.
+(* ------------------------------------------------------------------ the client with a dead meta.json and no lock (S24, fixed) *)
+Definition cli me k last :=
+  {| p_pid := me; p_alive := true; p_guard := false; p_drv := DClient; p_pc := k; p_last := last |}.
 
-Lemma micro_cw ag s o q s' q' d' :
-  s_lock s = LAbsent -> s_meta s = MRec d' -> clocal q -> micro ag s o q = (s', q') ->
-  s_lock s' = LAbsent /\ s_meta s' = MRec d' /\ clocal q'.
+Ltac cstep :=
+  cbn [solo micro ret client_next goto set_files p_pc p_pid p_guard p_drv p_alive s_lock s_meta s_tmp s_procs
+       s_took_lock s_took_meta mkst cli lock_pid meta_pid orb andb negb res_code lock_code meta_code b2n];
+  unfold takes, grace_fires;
+  change (o_deadline 0) with false; change (o_grace 0) with false; change (o_reach 0) with false;
+  repeat match goal with
+  | H : pid_alive _ _ = false |- _ => rewrite H
+  end;
+  rewrite ?N.eqb_refl, ?andb_false_r, ?andb_true_r, ?orb_false_r;
+  cbn [negb andb orb].
+
+Lemma solo_client_reaches_spawn ps me d' : pid_alive ps d' = false ->
+  solo 3 0 (mkst LAbsent (MRec d') MAbsent ps) (cli me RdMeta 0)
+  = (mkst LAbsent (MRec d') MAbsent ps, cli me (LockExistsM d') 0)
+  /\ solo 4 0 (mkst LAbsent (MRec d') MAbsent ps) (cli me RdMeta 0)
+  = (mkst LAbsent (MRec d') MAbsent ps, cli me RdMeta 0).
 Proof.
-  intros Hl Hm [Cp Cd] H.
-  unfold micro in H. rewrite Hl, Hm in H.
-  destruct (p_pc q) eqn:Hpc; cbn in Cp; try discriminate; unfold ret, goto in H; rewrite ?Cd in H; cbn in H.
-  all: break; inversion H; subst; clear H; cbn.
-  all: repeat split; cbn; rewrite ?Cd, ?Hpc; auto.
+  intros Hd. unfold mkst, cli. split.
+  - do 3 cstep. reflexivity.
+  - do 4 cstep. reflexivity.
 Qed.
 
-Record CWedge (d' : pid) (s : state) : Prop := mkCW {
-  Cw_lock : s_lock s = LAbsent;
-  Cw_meta : s_meta s = MRec d';
-  Cw_all : forall q, In q (s_procs s) -> clocal q
-}.
-
-Lemma step_cw ag d' s e : CWedge d' s -> CWedge d' (step ag s e).
+(* a meta.json of a dead pid without a lock.json: the client loop, scheduled alone among any idle processes, is after 3
+   steps at the "lock.json exists?" test of its meta branch with the lock absent — the point from which the code spawns an
+   authority — and after the 4th step back at the top of its loop (result 0 = does not exist), nothing changed *)
+Theorem client_reaches_spawn d' ps i me :
+  nth_error ps i = Some (fresh me DClient) -> pid_alive ps d' = false ->
+  nth_error (s_procs (run true (init LAbsent (MRec d') ps) (repeat (Step i 0) 3))) i = Some (cli me (LockExistsM d') 0)
+  /\ s_lock (run true (init LAbsent (MRec d') ps) (repeat (Step i 0) 3)) = LAbsent
+  /\ s_meta (run true (init LAbsent (MRec d') ps) (repeat (Step i 0) 3)) = MRec d'.
 Proof.
-  intros [Hl Hm Ha]. destruct e as [i o|i]; cbn [step].
-  - destruct (nth_error (s_procs s) i) as [q|] eqn:Hq; [|constructor; assumption].
-    destruct (p_alive q); [|constructor; assumption].
-    destruct (micro ag s o q) as [s' q'] eqn:HM.
-    destruct (micro_cw _ _ _ _ _ _ _ Hl Hm (Ha q (nth_error_In _ _ Hq)) HM) as [A [B C]].
-    constructor; cbn; try assumption.
-    intros x Hx. apply in_upd in Hx. destruct Hx as [[-> _]|[j [_ Hj]]]; [assumption|].
-    apply Ha. eapply nth_error_In; eassumption.
-  - destruct (nth_error (s_procs s) i) as [q|] eqn:Hq; [|constructor; assumption].
-    constructor; cbn; try assumption.
-    intros x Hx. apply in_upd in Hx. destruct Hx as [[-> _]|[j [_ Hj]]].
-    + destruct (Ha q (nth_error_In _ _ Hq)) as [A B]. constructor; assumption.
-    + apply Ha. eapply nth_error_In; eassumption.
-Qed.
-
-Lemma run_cw ag d' es : forall s, CWedge d' s -> CWedge d' (run ag s es).
-Proof. induction es as [|e es IH]; intros s H; [exact H|]. cbn. apply IH. apply step_cw. exact H. Qed.
-
-(* a meta.json without a lock (whoever wrote it) keeps every client loop in read-meta / ping / liveness / stale-cleanup
-   (which returns false: no lock): no client ever reaches the "no meta: does the lock exist? else spawn an authority"
-   branch (pc LockExists), and the files never change *)
-Theorem client_wedged_meta_only ag d' ps es :
-  (forall q, In q ps -> q = fresh (p_pid q) DClient) ->
-  (forall q, In q (s_procs (run ag (init LAbsent (MRec d') ps) es)) -> p_pc q <> LockExists)
-  /\ s_lock (run ag (init LAbsent (MRec d') ps) es) = LAbsent
-  /\ s_meta (run ag (init LAbsent (MRec d') ps) es) = MRec d'.
-Proof.
-  intros Hc.
-  assert (W0 : CWedge d' (init LAbsent (MRec d') ps)).
-  { constructor; cbn; try reflexivity. intros q Hq. rewrite (Hc q Hq). constructor; reflexivity. }
-  destruct (run_cw ag d' es _ W0) as [A B C].
+  intros Hi Hd. destruct (solo_client_reaches_spawn ps me d' Hd) as [S3 _].
+  destruct (run_solo 3 0 (init LAbsent (MRec d') ps) (mkst LAbsent (MRec d') MAbsent ps) (cli me RdMeta 0) i (sim_refl _) Hi eq_refl) as [Hsim Hps].
+  rewrite S3 in Hsim, Hps. cbn [fst snd] in Hsim, Hps.
+  destruct Hsim as [A [B _]].
   split; [|split; assumption].
-  intros q Hq E. destruct (C q Hq) as [P _]. rewrite E in P. discriminate.
+  rewrite Hps. cbn [init s_procs]. eapply upd_nth_same. eassumption.
 Qed.
